@@ -6,43 +6,64 @@ TITLE = "Compile-time constants keep their exact Python values"
 EXTRACTS = ["Consts", "ConstNames"]
 
 # ---- switches between the code as it is and the repaired code (proposed_fixes/C09-*.diff) ----
-# After the orchestrator applies proposed_fixes/C09-float_zero_sign_merged.diff (make_dedup_key: both key
-# repairs) set KEY_FX = KEY_OS = True; after C09-neg_int_over_4300_digits_crash.diff set
-# ABS_THRESHOLD = NEG_REPAIRED = True (i.e. replace _REPAIRED by True below).  Nothing else changes.
-_REPAIRED = os.environ.get("C09_REPAIRED", "1") == "1"     # testing hook: C09_REPAIRED=1 VERIF_REPO=<patched tree>
+# KEY_FX / ABS_THRESHOLD / NEG_REPAIRED: repairs that are in the tree (92db38a9b, 02095f761); _REPAIRED=0 only
+# to replay the check against an older tree (testing hook C09_REPAIRED=0 VERIF_REPO=<old tree>).
+# FS_GUARD: after the orchestrator applies proposed_fixes/C09-frozenset_multiplied_tuple_merged.diff
+# (make_dedup_key does not pool a frozenset with a multiplied tuple among its items) set the default of
+# C09_FS_GUARD to "1".  Nothing else changes.
+_REPAIRED = os.environ.get("C09_REPAIRED", "1") == "1"
 KEY_FX = _REPAIRED          # leaf key carries the sign of a float            (make_dedup_key)
-KEY_OS = _REPAIRED          # frozenset constants use an ordered key           (make_dedup_key)
 ABS_THRESHOLD = _REPAIRED   # hex text for abs(value) > 10**13                  (IntNode.generate_evaluation_code)
 NEG_REPAIRED = _REPAIRED    # unop_node: hex text for abs(value) > 2**64        (ExprNodes.unop_node)
+FS_GUARD = os.environ.get("C09_FS_GUARD", "1") == "1"    # frozenset key: multiplied tuples are not pooled
 
 RULE = ("(a) direct calls: generated integer literal texts of every base/case/underscore placement/size "
         "(valid ones, their scanner-stripped form, legacy forms and random mutations) through "
         "Utils.str_to_number; integers across the 2^31, 2^63, 10^13, 10^4300 boundaries through "
         "IntNode.generate_evaluation_code, unop_node and to_base32; pairs of constant node trees (tuples, "
         "slices, frozensets, multipliers, nested) whose leaves are drawn from ==-confusable sets through "
-        "make_dedup_key; literal operand pairs through ConstantFolding. (b) generated modules whose functions "
+        "make_dedup_key; literal operand pairs through ConstantFolding; event sequences (numeric-constant "
+        "requests of int/long/float spellings at lengths 40..45 and far beyond the 42-character abbreviation, "
+        "families that differ only inside / at the edges of the dropped middle, repeated keys, foreign "
+        "unique_const_cname calls that pre-occupy names) through the real get_int_const / get_float_const / "
+        "unique_const_cname / generate_num_constants on a bare GlobalState, the emitted #defines and "
+        "initialisers interpreted (last #define wins). (b) generated modules whose functions "
         "return lists of constant expressions, compared by type+bits with the same text run by CPython. "
         "distinct by input text / node-pair / expression; non-trivial = valid literal or key-equal pair or "
         "folded expression")
 EXPLANATION = ("theorems: str_to_number returns CPython's literal value on every scanner-stripped literal "
                "(any base, any size within CPython's own 4300-digit limit); the decimal/hex/base-32 emission "
                "round-trips every integer (repaired threshold) and every integer > -10^4300 (current), refuted "
-               "below; equal constant-pool keys imply identical constants for the repaired make_dedup_key, "
-               "refuted for the current one (float zero sign, frozenset element order); constant folding of "
-               "int/bool operands re-reads to Python's value and class. partial: float literals/folding and "
-               "the scanner/parser path are only run differentially against CPython, not proved; frozenset "
-               "keys of string arguments are not modelled.")
+               "below; equal constant-pool keys imply identical constants for make_dedup_key (float sign in the "
+               "leaf key, frozenset key = first item key per value) when no frozenset item contains a "
+               "multiplied tuple or with the proposed guard, refuted otherwise (and for the earlier key "
+               "functions: float zero sign, frozenset element order); distinct (text, type) keys of numeric "
+               "constants get distinct C names for every interleaving of requests and foreign "
+               "unique_const_cname calls (new_num_const_cname: both sides of the 42-character abbreviation, "
+               "int/long/float, negative), the uniqueness loop terminates with a fresh name, and every pooled "
+               "int constant resolves through its #define and slot initialiser (generate_num_constants) to its "
+               "own value; constant folding of int/bool operands re-reads to Python's value and class. "
+               "partial: float literals/folding and the scanner/parser path are only run differentially "
+               "against CPython, not proved; frozenset keys of string arguments are not modelled; float slots "
+               "of the number table are only compared textually (value code).")
 TRUSTED = ["Gallina definition of CPython int(str, base) (PyLong_FromString) incl. the 4300-digit limit; tied to "
            "CPython's int() on every generated text",
            "Gallina definition of str(int)/hex(int); tied to CPython on every generated integer",
            "IEEE-754 equality on bit patterns (float_eq) and exact int/float comparison (float_as_int); tied to "
            "CPython == on the confusable scalars",
            "CPython evaluating the same expression text as the property oracle",
-           "gcc as a conforming C compiler for the generated module"]
+           "gcc as a conforming C compiler for the generated module",
+           "the C preprocessor's redefinition rule (a later #define of the same name replaces the earlier one) as "
+           "modelled by resolve; the interpreter of the emitted number-table code in the direct worker"]
 ASSUMPTIONS = ["ASCII literal text (the lexicon admits nothing else in INT tokens)",
                "constant nodes are class-consistent: a node typed int/float/bool/str/bytes carries a "
                "constant_result of that class (wf_node); equal keys have equal hashes",
-               "LP64, CPython 3.12 default int_max_str_digits = 4300"]
+               "LP64, CPython 3.12 default int_max_str_digits = 4300",
+               "spellings of pooled numeric constants contain no '_', 'g', 'l', 'L', a '+' only directly after e/E and "
+               "no '.' directly after e/E (spell_ok): proved for the int texts (int_const_text_spell_ok), float texts "
+               "are source literals with underscores stripped or repr() of a folded float; every generated spelling "
+               "is checked against spell_ok by the model",
+               "items of frozenset constants are hashable (scalars and tuples of such): wf_top2"]
 
 M63 = 2 ** 63
 
@@ -183,6 +204,15 @@ def rand_pair(rng):
     k = rng.choice([1, 2, 2, 3, 4])
     args = [rand_node(rng, 1, allow_slice=False) for _ in range(k)]
     args = [a for a in args if a[0] == "L" or a[2] == 1] or [rand_leaf(rng)]
+    if rng.random() < 0.2:
+        # a multiplied tuple next to its written-out ==-twin: (x,) * k and (y, ..., y) with x == y
+        leaf = rand_leaf(rng)
+        kk = rng.choice([1, 2, 3])
+        pair = [["Q", "tuple", 1, ["L", rng.choice(["c0", "c3", "int"]), ["i", kk]], [leaf]],
+                ["Q", "tuple", 1, None, [twin_leaf(rng, leaf)] * kk]]
+        rng.shuffle(pair)
+        args = args + pair
+        rng.shuffle(args)
     args2 = [confuse(rng, a) for a in args]
     if rng.random() < 0.5:
         rng.shuffle(args2)
@@ -259,8 +289,30 @@ def classify_merge(t1, t2):
         if diff and all(is_fzero(p[2]) and is_fzero(q[2]) and p[1] == q[1] for p, q in diff):
             return "float_zero_sign_merged"
     if t1[0] == "TF":
+        if any(has_mult(x) for x in a1 + a2):
+            return "frozenset_multiplied_tuple_merged"
         return "frozenset_order_merged"
     return "dedup_merged_other"
+
+
+def has_mult(n):
+    """a literal sequence with a multiplier somewhere in the node"""
+    if n[0] == "Q":
+        return (n[2] == 1 and n[3] is not None) or any(has_mult(a) for a in n[4])
+    if n[0] == "S":
+        return any(has_mult(a) for a in n[2:])
+    return False
+
+
+def twin_leaf(rng, leaf):
+    """an ==-equal but different scalar, if the leaf has one"""
+    for g in CONFUSABLE:
+        if any(leaf[2] == sc for _, sc in g):
+            others = [(ty, sc) for ty, sc in g if sc != leaf[2]]
+            if others:
+                ty, sc = rng.choice(others)
+                return ["L", leaf[1] if leaf[1] == "obj" else ty, sc]
+    return leaf
 
 
 # ------------------------------------------------------------------------------------------------
@@ -434,6 +486,31 @@ def pool_scenarios(rng, quick):
                 ev.append(["U"] + f)
         ev.append(["R", ty, fam[0]])
         S.append(("foreign-calls", mix(ev, 2, 1)))
+    # 7. spellings that differ only in the characters new_num_const_cname replaces ('.', '+', '-'):
+    #    v / -v, exponent signs, the position of the point -- short and abbreviated
+    for _ in range(3 if quick else 20):
+        ev = []
+        for nd in (1, 3, 13, 39, 41, 60):
+            d, h = dec_text(rng, nd), hex_text(rng, max(1, nd - 2))
+            ev += [["R", "i", d], ["R", "i", "-" + d], ["R", "i", h], ["R", "i", "-" + h]]
+            if rng.random() < 0.3:
+                ev += [["R", "l", d], ["R", "l", "-" + d]]
+        for nd in (1, 2, 6, 38, 41, 44, 60):
+            m = dec_text(rng, nd)
+            if nd > 1:
+                cut = rng.randrange(1, nd)
+                m = m[:cut] + "." + m[cut:]
+            x = dec_text(rng, rng.choice([1, 2, 3]))
+            for sg in ("", "-"):
+                ev += [["R", "f", sg + m + "e" + x], ["R", "f", sg + m + "e+" + x], ["R", "f", sg + m + "e-" + x],
+                       ["R", "f", sg + m + "E-" + x]]
+            if "." in m:
+                i = m.index(".")
+                if 1 < i:
+                    ev.append(["R", "f", m[:i - 1] + "." + m[i - 1] + m[i + 1:]])      # the point one place left
+                ev.append(["R", "i", m.replace(".", "")])
+        rng.shuffle(ev)
+        S.append(("replaced-characters", ev))
     # 6. random pools
     for _ in range(10 if quick else 300):
         ev = []
@@ -587,6 +664,23 @@ def big_exprs(rng, quick):
     f = "3." + dec_text(rng, 58)
     for t in family(rng, "f", f, 3, "mid"):
         add("fold/float/long-literal", t)
+    # spellings that differ only in the characters the C name replaces
+    for t in ["1e5", "1e+5", "1e-5", "-1e5", "-1e+5", "-1e-5", "2.5e3", "2.5e+3", "2.5e-3", "25e-3", "1.5", "15.0", "-1.5",
+              "15", "-15", "1E-5", "1E+5"]:
+        add("fold/float/replaced-characters", t)
+    m = dec_text(rng, 50)
+    for t in [m[:20] + "." + m[20:] + "e+9", m[:20] + "." + m[20:] + "e-9", m[:20] + "." + m[20:] + "e9",
+              "-" + m[:20] + "." + m[20:] + "e-9", m, "-" + m]:
+        add("fold/float/replaced-characters", t)
+    # frozensets whose items are ==-equal tuples, one of them written with a multiplier, both orders
+    for a, b in [("(1,) * 2", "(1.0, 1.0)"), ("(True,) * 2", "(1, 1)"), ("(0.0,) * 3", "(-0.0, -0.0, -0.0)"),
+                 ("(1, 2) * 2", "(1.0, 2, 1, 2.0)")]:
+        add("frozenset/mult", "frozenset((%s, %s))" % (a, b))
+        add("frozenset/mult", "frozenset((%s, %s))" % (b, a))
+        add("frozenset/mult", "frozenset((%s, %s, 5))" % (b, a))
+    for t in ["frozenset((1, 2, 3))", "frozenset((3, 1, 2))", "frozenset((2, 1.0, 3, 1))", "frozenset((1, 3, 2, 1.0))",
+              "frozenset(((1, 1), (1.0, 1.0)))", "frozenset(((1.0, 1.0), (1, 1)))"]:
+        add("frozenset/order", t)
     return E
 
 
@@ -1136,6 +1230,8 @@ def classify_expr(stratum, text, got, exp):
     """finding class from the input expression (the observed value only separates a wrong zero sign from
     other differences)"""
     if stratum.startswith(("tuple", "slice", "container", "frozenset", "replay")):
+        if _has_confusable_frozenset(text) and re.search(r"frozenset\(.*\)\s*\*\s*\d", text):
+            return "frozenset_multiplied_tuple_merged"
         if _has_confusable_frozenset(text):
             return "frozenset_order_merged"
         nz, pz = struct.pack("<d", -0.0).hex(), struct.pack("<d", 0.0).hex()
@@ -1341,6 +1437,17 @@ def _run(ctx):
               (["TF", [onef, one]], ["TF", [one, onef]]),
               (["TF", [fz(0), fz(1 << 63)]], ["TF", [fz(1 << 63), fz(0)]]),
               (["TS", ["Q", "tuple", 1, None, [one, onef]]], ["TS", ["Q", "tuple", 1, None, [onef, one]]])]
+    # frozensets since a8197db74: the order is free unless ==-equal items swap places; a multiplied tuple
+    # is keyed by (multiplier, items) although its value is the repeated tuple
+    two, three = ["L", "int", ["i", 2]], ["L", "int", ["i", 3]]
+    m2 = lambda x: ["Q", "tuple", 1, ["L", "c0", ["i", 2]], [x]]
+    tup = lambda *xs: ["Q", "tuple", 1, None, list(xs)]
+    pairs += [(["TF", [one, two, three]], ["TF", [three, one, two]]),
+              (["TF", [one, two, onef]], ["TF", [two, onef, one]]),
+              (["TF", [m2(one), tup(onef, onef)]], ["TF", [tup(onef, onef), m2(one)]]),
+              (["TF", [m2(one), tup(one, one)]], ["TF", [tup(one, one), m2(one)]]),
+              (["TF", [tup(one, one), tup(onef, onef), two]], ["TF", [two, tup(onef, onef), tup(one, one)]]),
+              (["TF", [m2(fz(0)), tup(fz(1 << 63), fz(1 << 63))]], ["TF", [tup(fz(1 << 63), fz(1 << 63)), m2(fz(0))]])]
     sc_all = [sc for _, sc in ALL_LEAVES]
     sc_pairs = [(a, b) for a in sc_all for b in sc_all]
 
@@ -1379,7 +1486,7 @@ def _run(ctx):
     B.add("emit", q)
     pos = [v for v in evals if v >= 0]
     B.add("neg", ["neglit %d %s" % (NEG_REPAIRED, hexs(hex(v) if v > 10 ** 30 else str(v))) for v in pos])
-    B.add("pairs", ["keyeq %d %d %s | %s" % (KEY_FX, KEY_OS, " ".join(tok_top(a)), " ".join(tok_top(b))) for a, b in pairs])
+    B.add("pairs", ["keyeq %d %d %s | %s" % (KEY_FX, FS_GUARD, " ".join(tok_top(a)), " ".join(tok_top(b))) for a, b in pairs])
     B.add("scalareq", ["scalareq %s %s" % (tok_scalar(a), tok_scalar(b)) for a, b in sc_pairs])
     B.add("fold2", ["fold2 %s %s %s" % (op, a, b) for op, a, b in fold2])
     B.add("fold1", ["fold1 %s %s" % (op, a) for op, a in fold1])
